@@ -1,6 +1,8 @@
 package main
 
 import (
+	"os"
+	"runtime"
 	"encoding/binary"
 	"encoding/hex"
 	"flag"
@@ -138,6 +140,10 @@ func (s *seqRun) guarded(desc string, f func()) bool {
 		}
 		return true
 	case <-time.After(s.opTimeout):
+		if os.Getenv("VERIF_STACKS") != "" {
+			buf := make([]byte, 1<<20)
+			os.Stderr.Write(buf[:runtime.Stack(buf, true)])
+		}
 		s.emitf("# HANG :: %s", desc)
 		s.dead = true
 		return false
